@@ -514,6 +514,88 @@ theorem relabel_nonstrict_harmless (w h : List Rat) :
   congr 1
   exact weighted01_map_congr _ _ _ w h key
 
+/-! ### the regression reductions (loss moments) -/
+
+open Oracle in
+/-- `_call_oracle` for `BoundedGroupLoss` with non-negative multipliers: the labels are passed unchanged, row `i` gets
+    weight `n·(1 + λ_{g_i}/P(g_i)) / S` (the objective `MeanLoss` contributes the 1), and the weighted loss the learner
+    is asked to minimise is an increasing affine function of `mean loss + λ·γ`:
+    `Σ_i redW_i·loss_i(h) = (n²/S)·(mean loss(h) + λ·γ(h))`, `S = Σ_i (1 + λ_{g_i}/P(g_i)) ≥ n > 0` -/
+theorem loss_oracle_identity (l : Loss) (rows : List LRow) (lam h : List Rat) (hne : rows ≠ [])
+    (hlam : ∀ x ∈ lam, 0 ≤ x) (hl : h.length = rows.length) :
+    let w := vadd (bglSignedWeights (allGroup rows) none) (bglSignedWeights rows (some lam))
+    let n := (rows.length : Rat)
+    let S := w.sum
+    n ≤ S ∧
+    (callOracleLoss rows lam = .fit (rows.map (·.y)) (egNormWeights w) ∨
+      ∃ c, callOracleLoss rows lam = .dummy c (rows.map (·.y)) (egNormWeights w) ∧ ∀ r ∈ rows, r.y = c) ∧
+    dot (egNormWeights w) (lossOf l rows h)
+      = (n ^ 2 / S) * ((lossOf l rows h).sum / n + dot lam (bglGamma l rows h)) := by
+  intro w n S
+  have hnd : n = (rows.length : Rat) := rfl
+  have hSd : S = w.sum := rfl
+  have hnpos : (0 : Rat) < n := by
+    have := List.length_pos_of_ne_nil hne
+    rw [hnd]; exact_mod_cast this
+  have hones : bglSignedWeights (allGroup rows) none = List.replicate rows.length 1 := by
+    simp [bglSignedWeights, allGroup, Function.comp_def, List.map_const']
+  have hsw := bglSignedWeights_nonneg rows lam hlam
+  have hwn : ∀ x ∈ w, 0 ≤ x := vadd_nonneg _ _ (by rw [hones]; intro x hx; rw [List.mem_replicate] at hx; rw [hx.2]; norm_num) hsw
+  have hlen : (bglSignedWeights (allGroup rows) none).length = (bglSignedWeights rows (some lam)).length := by
+    simp [bglSignedWeights, allGroup]
+  have hS : S = n + (bglSignedWeights rows (some lam)).sum := by
+    rw [hSd, sum_vadd _ _ hlen, hones, hnd]
+    simp
+  have hSn : n ≤ S := by rw [hS]; have := sum_nonneg' _ hsw; linarith
+  have hSpos : 0 < S := lt_of_lt_of_le hnpos hSn
+  have habs : egAbsWeights w = w := egAbsWeights_of_nonneg w hwn
+  have hwl : w.length = rows.length := by simp [w, vadd, bglSignedWeights, allGroup]
+  refine ⟨hSn, ?_, ?_⟩
+  · unfold callOracleLoss callOracleReg
+    simp only [egSignedWeights_eq]
+    have : (egAbsWeights w).sum ≠ 0 := by rw [habs]; exact hSpos.ne'
+    simp only [w] at this
+    simp only [this, if_false]
+    rcases eg_shortcut_cases (rows.map (·.y)) (egNormWeights w) with hf | ⟨c, hd, hc⟩
+    · left; exact hf
+    · right; exact ⟨c, hd, fun r hr => hc r.y (List.mem_map.mpr ⟨r, hr, rfl⟩)⟩
+  · rw [egNormWeights_scale, habs, hwl, dot_scale_left]
+    have e1 : dot w (lossOf l rows h)
+        = dot (bglSignedWeights (allGroup rows) none) (lossOf l rows h)
+          + dot (bglSignedWeights rows (some lam)) (lossOf l rows h) := dot_vadd_left _ _ _ hlen
+    have e2 : dot (bglSignedWeights (allGroup rows) none) (lossOf l rows h) = (lossOf l rows h).sum := by
+      rw [hones]; exact dot_ones _ _ (by simp [lossOf, hl])
+    have e3 := loss_identity l rows lam h hne
+    have hn0 : n ≠ 0 := hnpos.ne'
+    have e4 : dot (bglSignedWeights rows (some lam)) (lossOf l rows h) = n * dot lam (bglGamma l rows h) := by
+      rw [e3, hnd]; rw [hnd] at hn0; field_simp
+    rw [e1, e2, e4, ← hnd, ← hSd]
+    have hS0 : S ≠ 0 := hSpos.ne'
+    clear_value n S
+    field_simp
+
+open Oracle in
+/-- one `GridSearch.fit` column for `BoundedGroupLoss`: the objective is in the span of the constraints (lifted flag),
+    so the learner gets the labels unchanged and the raw weights `λ_{g_i}/P(g_i)`, whose weighted loss is `n·λ·γ(h)` -/
+theorem loss_grid_identity (l : Loss) (rows : List LRow) (lam h : List Rat) (hne : rows ≠ []) :
+    (callGridLoss rows lam = .fit (rows.map (·.y)) (bglSignedWeights rows (some lam)) ∨
+      ∃ c, callGridLoss rows lam = .dummy c (rows.map (·.y)) (bglSignedWeights rows (some lam)) ∧ ∀ r ∈ rows, r.y = c) ∧
+    dot (bglSignedWeights rows (some lam)) (lossOf l rows h) = (rows.length : Rat) * dot lam (bglGamma l rows h) := by
+  have hn0 : (rows.length : Rat) ≠ 0 := by
+    have := List.length_pos_of_ne_nil hne
+    exact_mod_cast this.ne'
+  constructor
+  · unfold callGridLoss callGridReg
+    simp only [gridSignedWeights, OracleSrc.lossObjectiveInSpan, OracleSrc.gridAddsObjective, Bool.not_true,
+      Bool.false_eq_true, if_false]
+    rcases grid_shortcut_cases (rows.map (·.y)) (bglSignedWeights rows (some lam)) with hf | ⟨c, hd, hc⟩
+    · left; exact hf
+    · right; exact ⟨c, hd, fun r hr => hc r.y (List.mem_map.mpr ⟨r, hr, rfl⟩)⟩
+  · rw [loss_identity l rows lam h hne]; field_simp
+
+example : Oracle.callOracleLoss [⟨1, "a"⟩, ⟨0, "b"⟩, ⟨1/2, "b"⟩] [1, 2] = .fit [1, 0, 1/2] [1, 1, 1] := by decide +kernel
+example : Oracle.callGridLoss [⟨1, "a"⟩, ⟨0, "b"⟩, ⟨1/2, "b"⟩] [1, 2] = .fit [1, 0, 1/2] [3, 3, 3] := by decide +kernel
+
 /-! non-vacuity of the hypotheses above, evaluated by the kernel -/
 example : Oracle.callOracle [1, -1, 1] [1/2, 3, -2] = .fit [1, 1, 0] [1, 4/3, 2/3] := by decide +kernel
 example : Oracle.callOracle [1, 1] [1/2, 3] = .dummy 1 [1, 1] [6/11, 16/11] := by decide +kernel
